@@ -13,7 +13,7 @@ def plan(ctx):
                 if excl:
                     defs["EXCL_IDX_EQ_N"] = None
                 obs.append(Ob(id=f"{api}-{name}" + ("-excl" if excl else ""), harness="c12.c", defs=defs, units=uf_units(),
-                              unwind=8, unwindset={"main.0": 90, "main.1": 90, "main.2": 90, "make_systematic_matrix.0": 40},
+                              unwind=10, unwindset={"main.0": 90, "main.1": 90, "main.2": 90, "make_systematic_matrix.0": 40},
                               timeout=600, mem_gb=6,
                               sample={"symbolic": "84 fragment bytes + 4 checksum values" if mode == 1 else "1..3 x 59 metadata bytes, count", "instance": name,
                                       "excluded_input": "idx == k+m (listed/fixed finding)" if excl else None},
